@@ -607,6 +607,9 @@ func init() {
 			{"H2", "insert and lookup use the same hash function; the hash reads only the case-folded first byte and the length and is masked below the bucket-array length; every table entry is filed under the hash of its own name", ruleH2},
 			{"H3", "lookup compares whole names with bytescase.CmpEq (headers) / bytes.Equal (methods), a hit returns the entry's type, a miss HdrOther/MOther; bytescase pinned", ruleH3},
 			{"H4", "totality: the first-byte read of the hash is guarded by a non-emptiness test in the hash itself or at every non-init call site", ruleH4},
+			{"H4b", "totality: every index / slice expression inside the lookup functions (GetHdrType, GetMethodNo, the two hash functions, SIPMethod.Name) is discharged by the index-guard proof rules of C04-G", func(c *Ctx) {
+				ruleGFor(c, "H4b", map[string]bool{"GetHdrType": true, "GetMethodNo": true, "hashHdrName": true, "hashMthName": true, "SIPMethod.Name": true, "SIPMethod.String": true})
+			}},
 			{"H5", "method number to name: Method2Name indexed only under the m <= MOther guard (round trip is the identity given H1 uniqueness)", ruleH5},
 			{"T1", "the header parser assigns exactly this classification: every entry into the body-start state stores h.Type = GetHdrType(h.Name.Get(buf))", ruleT1},
 		},
